@@ -1636,6 +1636,13 @@ fn render_type_atom(type_def: &Type) -> String {
         Type::Intersection(_) | Type::Function(_) => {
             format!("({})", render_type(type_def))
         }
+        // The `<'int>` reference form (a type parameter named like a primitive) is not accepted
+        // bare as a function input/output: there it needs the grouping parentheses.
+        Type::Identifier { name, arguments }
+            if arguments.is_empty() && matches!(name.as_str(), "int" | "bin" | "ref") =>
+        {
+            format!("({})", render_type(type_def))
+        }
         _ => render_type(type_def),
     }
 }
